@@ -725,18 +725,20 @@ def r10(ctx: Ctx, m):
     if fe is None:
       raise AnalysisError(f'{rule}: producer entry {entry} not found')
     if entry not in dropped:
-      ctx.info(rule, fe, f'{entry}: every launch site keeps and inspects the future')
-      continue
+      # The in-repo launch sites read the future — the CONSUMERS of the queue still only learn of a failure
+      # through the queue ("every consumer observes that exception"), so the sibling entry obeys the same rule.
+      ctx.info(rule, fe, f'{entry}: every in-repo launch site keeps and inspects the future; checked as the sibling entry')
     p = fe.params()[1]
     g = cfgm.cfg_of(fe.node)
 
     def user_call(nd, p=p):
-      for x in cfgm.node_exprs(nd):
-        if isinstance(x, ast.Call) and unparse(x.func) in ('iter', 'aiter', 'next', 'anext') and x.args and (
-            isinstance(x.args[0], ast.Name) and x.args[0].id == p):
-          return x
-        if isinstance(x, ast.Await) and isinstance(x.value, ast.Name) and x.value.id == p:
-          return x
+      for top in cfgm.node_exprs(nd):
+        for x in ast.walk(top):
+          if isinstance(x, ast.Call) and unparse(x.func) in ('iter', 'aiter', 'next', 'anext') and x.args and (
+              isinstance(x.args[0], ast.Name) and x.args[0].id == p):
+            return x
+          if isinstance(x, ast.Await) and isinstance(x.value, ast.Name) and x.value.id == p:
+            return x
       return None
 
     def records(nd):
@@ -757,22 +759,25 @@ def r10(ctx: Ctx, m):
                           lambda a, b, lab: lab not in ('close', 'cont') and (lab != 'exc' or isinstance(a.ast, ast.Raise)))
           if w is not None and not (h.exc_types and set(h.exc_types) <= {'StopIteration', 'StopAsyncIteration'}):
             uncovered = f'the handler `{h.text()}` can leave without recording the failure'
-      launch_fi, _ = dropped[entry][0]
+      launch_fi = dropped[entry][0][0] if entry in dropped else next(f for f, _, e, _k in sites if e == entry)
       if uncovered:
         ctx.fail(rule, fe, f'{fe.qualname}: every call into `{p}` is covered by the failure-recording handler',
                  f'`{unparse(user_call(nd))}` can raise user code of the iterable but {uncovered}:'
-                 f' {entry} is launched with its outcome dropped (e.g. in {launch_fi.qualname}), so the'
-                 ' failure reaches nobody — self._exception stays None, enqueue_done never becomes'
+                 f' {entry} is launched from another thread / task (e.g. in {launch_fi.qualname}), so the'
+                 ' failure does not reach the consumers — self._exception stays None, enqueue_done never becomes'
                  ' true and every consumer of the queue waits for ever', node=nd.ast)
       else:
         ctx.ok(rule, fe, f'{entry}: `{unparse(user_call(nd))}` failures are recorded', nd.ast)
-  ctx.floor(rule, 2, n)
+  ctx.floor(rule, 5, n)
 
 
 from mlmverif.selfcheck import B, OK  # noqa: E402
 
 _F = 'utils/iter_utils.py'
 VARIANTS = [
+    B('revert-async-open-outside-the-handler', _F,
+      "    self._start_enqueue()\n    try:\n      if isinstance(iterator, Awaitable):\n        iterator = await iterator\n      if not isinstance(iterator, AsyncIterator):\n        iterator = aiter(iterator)\n    except Exception as e:  # pylint: disable=broad-exception-caught\n      # Same as enqueue_from_iterator: the iterable can fail before yielding\n      # anything, the consumers have to see this as any other enqueue failure.\n      e.add_note(f'Exception during async enqueueing {self.name}')\n      logging.exception('chainable: %s', f'{self.name} enqueue failed.')\n      self._exception = e\n      self._stop_enqueue()\n      raise e\n",
+      "    if isinstance(iterator, Awaitable):\n      iterator = await iterator\n    if not isinstance(iterator, AsyncIterator):\n      iterator = aiter(iterator)\n    self._start_enqueue()\n", 'R-C05-10'),
     B('revert-sticky-stop-flag', _F,
       '      self._stop_requested = True\n      self._enqueue_stop = self._enqueue_start = self._max_enqueuer',
       '      self._enqueue_stop = self._enqueue_start = self._max_enqueuer', 'R-C05-9'),
